@@ -256,7 +256,7 @@ func (g *gen) newTxn() {
 	}
 	tx.primary = tx.muts[rapid.IntRange(0, nm-1).Draw(t, "primary")].K
 	tx.ttl = []uint64{0, 1, 2, 3, 4, 6, 40}[rapid.IntRange(0, 6).Draw(t, "ttl")]
-	tx.minCommit = []uint64{0, 0, 0, tx.start + 1, tx.start + 2, tx.start + 4}[rapid.IntRange(0, 5).Draw(t, "minc")]
+	tx.minCommit = []uint64{0, 0, 0, tx.start + 1, tx.start + 2, tx.start + 3, tx.start + 4}[rapid.IntRange(0, 6).Draw(t, "minc")]
 	g.txns = append(g.txns, tx)
 	// usually prewrite right away; otherwise the prewrite is late (other steps in between)
 	if rapid.IntRange(0, 9).Draw(t, "late") < 7 {
